@@ -547,6 +547,23 @@ def handleToks (s : Sys) (toks : List String) : Sys × String :=
           (s, (if l.isEmpty then "ok 0" else s!"ok {l.length} " ++ " ".intercalate l) ++ " err=nil")
         | o => (s, showOut o))
      | _, _ => (s, "bad-op"))
+  | ["api", "sub", sid, p] =>
+    -- a subscription through the database API: the API's interface subscribes (neither local nor internal)
+    (match s.iface "@api", parseQuery p "-" with
+     | some i, some q => ({ s with subs := s.subs ++ [{ id := sid, loc := i.opts.loc, int := i.opts.int, q := q }] }, "ok")
+     | _, _ => (s, "bad-op"))
+  | ["api", "feed", sid, _sentinel] =>
+    -- `processSub`: a record marked deleted is announced as `del`, one the API cannot render as a JSON object
+    -- (RAW data, no data) only gives a warning, everything else is sent as `upd` / `new` with its data
+    (match s.subs.find? (·.id == sid) with
+     | some sb =>
+       let items := sb.feed.filterMap (fun r =>
+         if r.md.isDeleted then some s!"del:{encKey r.key}"
+         else if r.form == .raw || r.fields.isEmpty then none
+         else some ("upd:" ++ showRecNoMeta r))
+       ({ s with subs := s.subs.map (fun x => if x.id == sid then { x with feed := [] } else x) },
+        if items.isEmpty then "ok 0" else s!"ok {items.length} " ++ " ".intercalate items)
+     | none => (s, "bad-op"))
   | ["api", "create", k, p] =>
     (match parseRec k "J" "0,0,0,0,0,0" p with | some r => s.exec "@api" (.putNew r) | none => (s, "bad-op"))
   | ["api", "update", k, p] =>
